@@ -104,6 +104,10 @@ theorem atoi_render4 (n : Nat) (h : n < 10000) : atoiNat (render4 n) = some n :=
     List.foldl_nil, Option.bind_some, isDig_dig, if_true, dig_toNat]
   congr 1; omega
 
+theorem dig_ne_sign (n : Nat) : dig n ≠ '-' ∧ dig n ≠ '+' := by
+  have := dig_toNat n
+  constructor <;> intro e <;> rw [e] at this <;> revert this <;> simp <;> omega
+
 theorem render2_length (n : Nat) : (render2 n).length = 2 := rfl
 theorem render3_length (n : Nat) : (render3 n).length = 3 := rfl
 theorem render4_length (n : Nat) : (render4 n).length = 4 := rfl
